@@ -79,6 +79,25 @@ fn self_reference_session(rep: &mut CaseReport) {
             }
         }
     }
+    // a stale resolve: the actions were offered on a reference to another note; an edit then turns that very line into a
+    // reference of the note to itself, and the client resolves what it was offered before (the server no longer offers to
+    // inline a note into itself, but it must still answer when asked)
+    let before = "# Self\n\n## Part\n\n[other](../other)\n\ntext\n";
+    let after = "# Self\n\n## Part\n\n[me](self)\n\ntext\n";
+    s.did_change("d/self", before);
+    let stale = match s.request("textDocument/codeAction", json!({"textDocument": {"uri": uri}, "range": {"start": {"line": 4, "character": 0}, "end": {"line": 4, "character": 0}}, "context": {"diagnostics": []}})) {
+        Outcome::Result(v) => v.as_array().cloned().unwrap_or_default(),
+        _ => Vec::new(),
+    };
+    s.did_change("d/self", after);
+    for a in stale {
+        rep.count("events", 1);
+        rep.count("pinned_stale_resolves", 1);
+        let o = s.request("codeAction/resolve", a.clone());
+        if !o.answered() {
+            rep.violate("no-response", "pinned:self-reference", format!("stale codeAction/resolve of `{}` after the line became a self reference: {:?}", a["title"], o), replay.clone());
+        }
+    }
     if s.formatted_text("other").is_none() {
         rep.violate("server-stopped-serving", "pinned:self-reference", "formatting of another note is not answered after the session".into(), replay.clone());
     }
